@@ -181,6 +181,11 @@ def parseOp : List String → Option (Op × Nat)
     match ← parseKey k with
     | .p pk => pure (.take pk (← optJ rest) [] ((← optDb rest) || rest.contains "lctx=1"), 0)
     | _ => none
+  | "cqindex" :: k :: rest => do
+    -- concurrent readers of one index key through QueryRowIndex: the model is one fault-free index read
+    match ← parseKey k with
+    | .x a => pure (.qindex a (← optJ rest) [] (← optDb rest), 0)
+    | _ => none
   | "qindex" :: k :: rest => do
     match ← parseKey k with
     | .x a => pure (.qindex a (← optJ rest) (← optMask rest) (← optDb rest), 1)
@@ -456,6 +461,8 @@ def runSection (r : Report) (sec : Section) : Report := Id.run do
   let c0 : Cfg := cfgs.headD { exp := 1, nf := 1 }
   r := r.addCover s!"section-nodes-{nodes}-{typ}"
   r := r.addCover s!"section-instances-{insts.length}"
+  r := r.addCover (let b := kvNat sec.cfg "pkbase" 0
+    if b = 0 then "primary-keys-small" else if b < 9007199254740992 then "primary-keys-from-10^6" else "primary-keys-above-2^53")
   for i in insts do
     r := r.addCover s!"instance-{kindName i.1}"
     r := r.addCover (optClass "exp" i.2.expiry)
@@ -559,7 +566,14 @@ def runSection (r : Report) (sec : Section) : Report := Id.run do
         s := compact ms
       | _, _ => r := r.mismatch sec.idx l.idx "bad-op" (joinSp l.op)
       continue
-    if (l.obs.headD "").startsWith "PANIC" && l.op.head? ≠ some "ctake" then
+    if (l.obs.headD "").startsWith "err:primary-key-decoded-as-" then
+      -- clause `decode`: the number an index entry holds must arrive as the same value on every decode path of doTake
+      -- (the leader's own query, a cache hit, a follower of a shared flight): same dynamic type class (integer /
+      -- json.Number, never a float) and the same %v text, so that every reader builds the same primary cache key
+      r := { r with ops := r.ops + 1 }
+      r := r.violation sec.idx l.idx s!"decode: the primary key derived from the index entry is not the number the database reported (it must be the same on the leader, follower and cache-hit path of doTake): {l.obs.headD ""} op=[{joinSp l.op}] cfg=[{joinSp sec.cfg}] impl=[{joinSp l.obs}]"
+      continue
+    if (l.obs.headD "").startsWith "PANIC" && l.op.head? ≠ some "ctake" && l.op.head? ≠ some "cqindex" then
       -- the real code panicked under this operation although no user-supplied function of THIS operation did
       -- (a query function that panics is caught by the harness and printed `panicked`): e.g. a key left unreadable
       -- by an earlier panicking query (the flight's call never removed), a foreign object handed out by a barrier
@@ -596,7 +610,7 @@ def runSection (r : Report) (sec : Section) : Report := Id.run do
       | some k => r := r.addCover (if k = "pre" then s!"ctx-cancelled-before-call-{opKind op}" else s!"ctx-deadline-between-or-after-retries-{opKind op}")
       if (kv? l.op "ctx").isSome && (kv? l.op "ctx") ≠ some "bg" && (l.obs.any fun t => t.startsWith "cmds=" && (t.splitOn "del/").length > 1 && (t.splitOn ":fail").length > 1) then
         r := r.addCover "failed-del-under-a-request-scoped-context"
-      let dbf := match op with | .take _ _ _ d => d | _ => false
+      let dbf := match op with | .take _ _ _ d => d | .qindex _ _ _ d => d | _ => false
       let multi := Spec.classesOf kinds via > 1
       let impl := joinSp obsToks
       -- `db=2` / `db=3`: the query function panics; for the model and the monitor that is a failing database call
@@ -627,7 +641,7 @@ def runSection (r : Report) (sec : Section) : Report := Id.run do
       let res := pick.2.1
       let model := pick.2.2
       if conc then
-        r := r.addCover "concurrent-readers"
+        r := r.addCover (if l.op.head? = some "cqindex" then "concurrent-index-readers" else "concurrent-readers")
         if via.eraseDups.length ≥ 2 then r := r.addCover "concurrent-readers-across-instances"
         if multi then r := r.addCover "concurrent-readers-across-barrier-classes"
         if via.eraseDups.length ≥ 2 ∧ !multi ∧ res.2.q = 1 then r := r.addCover "concurrent-load-across-instances-one-barrier"
